@@ -6,7 +6,7 @@ step     : one record from an arbitrary cipher state (symbolic sequence numbers 
 import random
 
 VALIDATE = True
-SITES = ["no-exception", "client-stream-equals-sent", "server-stream-equals-sent"]
+SITES = ["no-exception", "client-stream-equals-sent", "server-stream-equals-sent", "step-plaintext", "step-state-advanced", "step-no-exception"]
 MODELS = ["cryptography: ideal model tlv/stubs/cryptography (UF hashes/HMAC/HKDF/block permutations/key streams, AEAD event table)",
           "scapy: recorder classes tlv/stubs/scapy", "dpkt (in tlexport.packet): tlv/models/dpkt_model.py",
           "key log: keylog_reader.Key objects with symbolic hex fields (parsing of the text is C09's subject)"]
@@ -68,7 +68,7 @@ def configs(tier, seed):
                 sh_list = [shapes[0], rnd.choice(shapes[1:])]
             for sh in sh_list:
                 base = {"harness": "pipeline", "version": v, "suite": code, "suite_name": name, "ipv": rnd.choice([4, 6]),
-                        "records": 2 if tier == "quick" else 3, "max_len": 2, **sh}
+                        "records": 2 if tier == "quick" else 3, "max_len": 1 if tier == "quick" else 2, **sh}
                 variants = [{}]
                 if cls[2] == "CBC":
                     variants = [{}, {"etm": True}] if (tier == "thorough" or sh is shapes[0]) else [{}]
@@ -79,6 +79,13 @@ def configs(tier, seed):
                     c.update(var)
                     c["name"] = "%s-%04x-%s%s%s" % (v, code, sh["shape"], "-etm" if var.get("etm") else "", "-rsa" if var.get("keylog_label") else "")
                     out.append(c)
+    # ---- one record from an arbitrary cipher state, one configuration per behaviour class
+    for cls, members in sorted(by_class.items()):
+        code, name = members[0] if tier == "quick" else rnd.choice(members)
+        kinds = [False, True] if cls[2] == "CBC" else [False]
+        for etm in kinds:
+            out.append({"harness": "step", "name": "step-%s-%04x%s" % (cls[0], code, "-etm" if etm else ""), "version": cls[0], "suite": code,
+                        "suite_name": name, "etm": etm, "validate": False, "tier": tier})
     return out
 
 
@@ -86,8 +93,11 @@ def bounds(tier):
     return {"suites": "every behaviour class (version, cipher, mode, key length, hash, tag length) of TLExport's table; "
                       + ("all members of each class" if tier == "thorough" else "one member per class chosen by VERIF_SEED"),
             "handshake shapes": [s["shape"] for s in SHAPES_LEGACY] + [s["shape"] for s in SHAPES_13],
-            "application records": "%d, each of solver-chosen length 0..2 and solver-chosen direction; all content, randoms, secrets, "
-                                   "explicit IVs/nonces, MAC bytes symbolic" % (2 if tier == "quick" else 3),
+            "application records": "%d, each of solver-chosen length 0..%d and solver-chosen direction; all content, randoms, secrets, "
+                                   "explicit IVs/nonces, MAC bytes symbolic" % ((2, 1) if tier == "quick" else (3, 2)),
+            "step harness": "one record from an arbitrary state: sequence number in [0, 2^64-1), arbitrary CBC residue, RC4 position "
+                            "< 2^40, TLS 1.3 epoch handshake/application; plaintext 0..%s bytes for CBC, 0..3 otherwise; TLS 1.3 padding "
+                            "0/1/3; one extra padding block" % ("2 blocks + 2" if tier == "thorough" else "1 block + 1"),
             "outside": "records longer than 2 bytes in the pipeline harness (block-boundary lengths are covered by the step harness), "
                        "more than 3 records, compression, renegotiation"}
 
@@ -102,7 +112,110 @@ def scenario_outputs(cfg, mods, src):
     return items, out, ep, sessions
 
 
+def _run_step(cfg):
+    """Decryptor.decrypt on one record from an arbitrary (symbolic) cipher state."""
+    from tlv.sx.core import ctx, sym_int, sym_choice, sym_bool, sym_and
+    from tlv.sx.symbytes import sym_bytes, as_symbytes
+    from tlv.harness import pipeline as P
+    from tlv.harness.common import explore_cfg
+    from tlv.oracle import scenario as SC, tls as T
+    mods = P.setup_symbolic()
+    sess_mod = mods["tlexport.session"]
+    TlsVersion = mods["tlexport.session"].TlsVersion
+    version = cfg["version"]
+
+    def scenario():
+        c = ctx()
+        src = SC.SymSrc()
+        sp = T.SuiteParams(cfg["suite"], cfg["suite_name"])
+        conn = T.Conn(version, sp, src, etm=cfg["etm"])
+        cr, sr = src.bytes("client_random", 32), src.bytes("server_random", 32)
+        # decryptor as Session.generate_keys builds it
+        s = sess_mod.Session.__new__(sess_mod.Session)
+        s.tls_version = getattr(TlsVersion, version)
+        s.extensions = {bytes.fromhex("0016"): b""} if cfg["etm"] else {}
+        s.compression_method = 0
+        s.client_random, s.server_random = cr, sr
+        s.ipv6 = False
+        s.server_ip = s.client_ip = b"\x0a\x00\x00\x01"
+        s.server_port = s.client_port = 1
+        s.can_decrypt = True
+        if version == "TLS13":
+            secs = {lab: src.bytes(lab.lower(), sp.mac_hash.digest_size) for lab in
+                    ("CLIENT_HANDSHAKE_TRAFFIC_SECRET", "SERVER_HANDSHAKE_TRAFFIC_SECRET", "CLIENT_TRAFFIC_SECRET_0", "SERVER_TRAFFIC_SECRET_0")}
+            keylog = [(lab, cr, v) for lab, v in secs.items()]
+        else:
+            ms = src.bytes("master_secret", 48)
+            keylog = [("CLIENT_RANDOM", cr, ms)]
+        s.keylog = P.keylog_objects(mods, keylog)
+        s.generate_keys(s.tls_version, T.u16(cfg["suite"]), cr, sr)
+        d = s.decryptor
+        if d is None:
+            c.fail("step-no-exception", "no decryptor was built")
+            return {"outcome": "no decryptor"}
+        from_server = bool(sym_choice("from_server", [False, True]))
+        sd = conn.side(from_server)
+        sd.encrypted = True
+        # arbitrary state, the same on both ends
+        seq = sym_int("seq", 0, (1 << 64) - 2)
+        sd.seq = seq
+        if version == "TLS13":
+            epoch_app = bool(sym_choice("epoch_app", [False, True]))
+            lab = ("SERVER" if from_server else "CLIENT") + ("_TRAFFIC_SECRET_0" if epoch_app else "_HANDSHAKE_TRAFFIC_SECRET")
+            sd.key, sd.iv = T.tls13_traffic_keys(sp, secs[lab])
+            if epoch_app:
+                d.update_keys(from_server)
+        else:
+            conn.install_tls12_keys(ms, cr, sr)
+            sd.encrypted = True
+            sd.seq = seq
+        if from_server:
+            d.server_seq = seq
+        else:
+            d.client_seq = seq
+        if sp.kind == "cbc" and version in ("SSL30", "TLS10"):
+            res = sym_bytes("residue", sp.block_len)
+            sd.residue = res
+            if from_server:
+                d.last_block_server = res
+            else:
+                d.last_block_client = res
+        if sp.kind == "rc4":
+            pos = sym_int("rc4_position", 0, (1 << 40))
+            sd.rc4.position = pos
+            (d.server_cipher if from_server else d.client_cipher).position = pos
+        maxlen = ((2 * sp.block_len + 2) if cfg.get("tier") == "thorough" else sp.block_len + 1) if sp.kind == "cbc" else 3
+        n = sym_choice("len", list(range(0, maxlen + 1)))
+        pt = src.bytes("plaintext", n)
+        ctype = 0x17
+        pad = sym_choice("pad", [0, 1, 3]) if version == "TLS13" else 0
+        xb = sym_choice("extra_pad_blocks", [0, 1]) if (sp.kind == "cbc" and version != "SSL30") else 0
+        rec = conn.record(from_server, ctype, pt, pad=pad, extra_pad_blocks=xb)
+        record = mods["tlexport.tlsrecord"].TlsRecord(as_symbytes(rec), [], from_server)
+        try:
+            got = d.decrypt(record, from_server)
+        except Exception as e:
+            c.fail("step-no-exception", "%s: %s" % (type(e).__name__, e))
+            return {"outcome": "exception"}
+        c.check(True, "step-no-exception")
+        want = T.cat(pt, b"\x17", bytes(pad)) if version == "TLS13" else pt
+        c.check(len(got) == len(want) and (as_symbytes(got) == want), "step-plaintext", "decrypted %d bytes, sent %d" % (len(got), len(want)))
+        conds = []
+        if sp.kind in ("aead", "chacha") or version == "TLS13":
+            conds.append((d.server_seq if from_server else d.client_seq) == seq + 1)
+            conds.append((d.client_seq if from_server else d.server_seq) == 0)
+        if sp.kind == "cbc" and version in ("SSL30", "TLS10"):
+            conds.append(as_symbytes(d.last_block_server if from_server else d.last_block_client) == sd.residue)
+        if sp.kind == "rc4":
+            conds.append((d.server_cipher if from_server else d.client_cipher).position == sd.rc4.position)
+        c.check(sym_and(*conds) if conds else True, "step-state-advanced")
+        return {"outcome": "ok", "validate": False}
+    return explore_cfg(scenario, cfg, timeout_ms=60000, sample_paths=1)
+
+
 def run_config(cfg):
+    if cfg["harness"] == "step":
+        return _run_step(cfg)
     from tlv.sx.core import ctx
     from tlv.harness import pipeline as P
     from tlv.harness.common import explore_cfg
@@ -151,11 +264,100 @@ def concrete(cfg, inp, args=()):
     return {"ok": not problems, "problems": problems[:6], "stderr": res.get("stderr", "")[-400:] if problems else ""}
 
 
+def _concrete_step(cfg, inp):
+    """The same single-record step on the real Decryptor with the real cryptography."""
+    import tlexport.session as sess_mod
+    from tlexport.tlsversion import TlsVersion
+    from tlexport.tlsrecord import TlsRecord
+    from tlexport.keylog_reader import Key
+    from tlv.oracle import scenario as SC, tls as T
+    src = SC.ConcreteSrc(inp)
+    version = cfg["version"]
+    sp = T.SuiteParams(cfg["suite"], cfg["suite_name"])
+    conn = T.Conn(version, sp, src, etm=cfg["etm"])
+    cr, sr = src.bytes("client_random", 32), src.bytes("server_random", 32)
+    s = sess_mod.Session.__new__(sess_mod.Session)
+    s.tls_version = getattr(TlsVersion, version)
+    s.extensions = {bytes.fromhex("0016"): b""} if cfg["etm"] else {}
+    s.compression_method = 0
+    s.client_random, s.server_random = cr, sr
+    s.ipv6 = False
+    s.server_ip = s.client_ip = b"\x0a\x00\x00\x01"
+    s.server_port = s.client_port = 1
+    s.can_decrypt = True
+    if version == "TLS13":
+        secs = {lab: src.bytes(lab.lower(), sp.mac_hash.digest_size) for lab in
+                ("CLIENT_HANDSHAKE_TRAFFIC_SECRET", "SERVER_HANDSHAKE_TRAFFIC_SECRET", "CLIENT_TRAFFIC_SECRET_0", "SERVER_TRAFFIC_SECRET_0")}
+        keylog = [(lab, cr, v) for lab, v in secs.items()]
+    else:
+        ms = src.bytes("master_secret", 48)
+        keylog = [("CLIENT_RANDOM", cr, ms)]
+    s.keylog = [Key("%s %s %s" % (l, a.hex(), b.hex())) for l, a, b in keylog]
+    try:
+        s.generate_keys(s.tls_version, T.u16(cfg["suite"]), cr, sr)
+        d = s.decryptor
+        from_server = [False, True][inp.get("from_server", 0)]
+        sd = conn.side(from_server)
+        seq = inp["seq"]
+        if version == "TLS13":
+            epoch_app = [False, True][inp.get("epoch_app", 0)]
+            lab = ("SERVER" if from_server else "CLIENT") + ("_TRAFFIC_SECRET_0" if epoch_app else "_HANDSHAKE_TRAFFIC_SECRET")
+            sd.key, sd.iv = T.tls13_traffic_keys(sp, secs[lab])
+            if epoch_app:
+                d.update_keys(from_server)
+        else:
+            conn.install_tls12_keys(ms, cr, sr)
+        sd.encrypted = True
+        sd.seq = seq
+        if from_server:
+            d.server_seq = seq
+        else:
+            d.client_seq = seq
+        if sp.kind == "cbc" and version in ("SSL30", "TLS10"):
+            res = src.bytes("residue", sp.block_len)
+            sd.residue = res
+            if from_server:
+                d.last_block_server = res
+            else:
+                d.last_block_client = res
+        if sp.kind == "rc4":
+            # a real RC4 context cannot be put at an arbitrary position: advance both by the same (small) amount
+            k = inp.get("rc4_position", 0) % 4096
+            sd.rc4.update(bytes(k))
+            (d.server_cipher if from_server else d.client_cipher).update(bytes(k))
+        maxlen = ((2 * sp.block_len + 2) if cfg.get("tier") == "thorough" else sp.block_len + 1) if sp.kind == "cbc" else 3
+        n = list(range(0, maxlen + 1))[inp.get("len", 0)]
+        pt = src.bytes("plaintext", n)
+        pad = [0, 1, 3][inp.get("pad", 0)] if version == "TLS13" else 0
+        xb = [0, 1][inp.get("extra_pad_blocks", 0)] if (sp.kind == "cbc" and version != "SSL30") else 0
+        rec = conn.record(from_server, 0x17, pt, pad=pad, extra_pad_blocks=xb)
+        got = d.decrypt(TlsRecord(bytearray(rec), [], from_server), from_server)
+    except Exception as e:
+        return {"ok": False, "problems": ["exception %s: %s" % (type(e).__name__, e)]}
+    want = pt + b"\x17" + bytes(pad) if version == "TLS13" else pt
+    problems = []
+    if bytes(got) != want:
+        problems.append("decrypted %s, sent %s" % (bytes(got).hex(), want.hex()))
+    if sp.kind in ("aead", "chacha") or version == "TLS13":
+        if (d.server_seq if from_server else d.client_seq) != seq + 1:
+            problems.append("sequence number not advanced by one")
+    if sp.kind == "cbc" and version in ("SSL30", "TLS10"):
+        if bytes(d.last_block_server if from_server else d.last_block_client) != bytes(sd.residue):
+            problems.append("CBC residue is not the last ciphertext block")
+    return {"ok": not problems, "problems": problems}
+
+
 def replay(cfg, viol):
+    if cfg["harness"] == "step":
+        r = _concrete_step(cfg, viol["inputs"])
+        return {"reproduced": not r["ok"], **r}
     r = concrete(cfg, viol["inputs"])
     return {"reproduced": not r["ok"], **r}
 
 
 def validate(cfg, sample):
+    if cfg["harness"] == "step":
+        r = _concrete_step(cfg, sample["inputs"])
+        return {"agree": r["ok"], **r}
     r = concrete(cfg, sample["inputs"])
     return {"agree": r["ok"], **r}
